@@ -138,6 +138,21 @@ def gen_history(rnd, nops=40, nsrc=3, deep=False, fam=None, nq=30):
         else:
             qs = queries_for(rnd, fam, base, present or pool[:2])
             lines += qs[:2]
+    if deep:
+        # the chain is complete now: operations aimed at its longest prefixes (nodes at the maximum depth): the same
+        # record again, the same prefix for another AS / source, removal and re-insertion
+        w = 32 if fam == "4" else 128
+        longest = sorted(present, key=lambda r: -r[2])[:3]
+        for r in longest:
+            lines.append("add 0 " + fmt(r))
+            other = r[:4] + ((r[4] + 1) % (1 << 32), r[5])
+            lines.append("add 0 " + fmt(other))
+            lines.append("del 0 " + fmt(r))
+            lines.append("del 0 " + fmt(r))
+            lines.append("add 0 " + fmt(r))
+            lines.append("del 0 " + fmt(other))
+            if r not in present:
+                present.append(r)
     lines.append("list 0")
     qs = queries_for(rnd, fam, base, present or pool[:3])
     lines += qs[:nq]
